@@ -132,7 +132,9 @@ STR_INDEX_HELPER_SNIPPET = """inline char __redu_str_get(const String &text, int
 }
 """
 
-MATH_HELPER_SNIPPET = """template <typename A>
+MATH_HELPER_SNIPPET = """#include <math.h>
+
+template <typename A>
 A __redu_abs(A value) {
   return value < 0 ? -value : value;
 }
